@@ -138,4 +138,12 @@ PROPS = {
         "recorded bytes; the verif pool hook reports the largest buffer the receiver released (bound 4N+64KiB); workers run under a 6 GiB address-space "
         "limit; distinct = distinct scheduler-log hash among runs with >= 2 candidates",
         16000, 150000),
+    "C13": e2e(
+        "each run = G in 2..6 client tasks x K in 1..3 calls (plus separate sender/receiver tasks for bidi streams) with pairwise-distinct tagged "
+        "payloads, headers and trailers, of mixed protocols, codecs, compressions, kinds and sizes, over ONE handler set and 1-3 shared clients; "
+        "deterministic build: schedule decided at every transport operation and library yield point, poisoned LIFO/FIFO pools, custom (de)compressors "
+        "that park mid-operation, detection of double Put; oracle: each call's result == its solo expectation, no foreign tag anywhere, values "
+        "handed to user code still equal their at-receipt copies at the end of the run; -race build of the same world with happens-before-free "
+        "gates: a race report whose racing accesses are inside connect-go is a violation; distinct = distinct scheduler-log hash",
+        6000, 100000, race=True, quick_extra={"race_runs": 600}, thorough_extra={"race_runs": 20000}),
 }
